@@ -62,7 +62,7 @@ func init() {
 	core.Register(&core.Prop{
 		ID:    "C17",
 		Level: "exploration",
-		Rule: "seeded charts packaged and signed by helm (action.Package --sign and Signatory.ClearSign) with OpenPGP RSA keys generated per worker; per chart: every byte position (stride-sampled to ~240 positions per part in the quick tier; thorough: all positions, all 8 bit flips at every 4th) of archive, clear-signed headers+body and signature armor × {bit flip, byte replacement, insertion, deletion, truncation}; structural mutants (re-signed messages with swapped / extra / missing file entries, other signer, other hash, duplicated / prefixed blocks, CRLF, trailing blanks, header changes, second signature block); keyrings {signer, signer+others, others, empty, missing, secret ring, same user id other key}; keyring files rewritten in place between verifications (same path, same process: signer removed / added / file emptied / removed / replaced by rename); renamed / moved archives; through Signatory.Verify and downloader.VerifyChart (all mutants) and action.Verify, LocateChart(Verify), DownloadTo(VerifyAlways/VerifyLater) (sampled + all structural). " +
+		Rule: "seeded charts packaged and signed by helm (action.Package --sign and Signatory.ClearSign) with OpenPGP RSA keys generated per worker; per chart: every byte position (stride-sampled to ~240 positions per part in the quick tier; thorough: all positions, all 8 bit flips at every 4th) of archive, clear-signed headers+body and signature armor × {bit flip, byte replacement, insertion, deletion, truncation}; structural mutants (re-signed messages with swapped / extra / missing file entries, other signer, other hash, duplicated / prefixed blocks, several clear-signed blocks (untrusted-key block vouching for a tampered archive before / after / around the genuine block, blank-line and text gaps) with the tampered archive on disk, CRLF, trailing blanks, header changes, second signature block); keyrings {signer, signer+others, others, empty, missing, secret ring, same user id other key}; keyring files rewritten in place between verifications (same path, same process: signer removed / added / file emptied / removed / replaced by rename); renamed / moved archives; through Signatory.Verify and downloader.VerifyChart (all mutants) and action.Verify, LocateChart(Verify), DownloadTo(VerifyAlways/VerifyLater) (sampled + all structural). " +
 			"distinct_nontrivial counts (part, mutation kind, expected outcome, entry point) tuples.",
 		Assumptions: []string{
 			"golang.org/x/crypto/openpgp (clearsign.Decode, CheckDetachedSignature, armor) is the trusted definition of 'valid signature by a key in the keyring'",
@@ -857,6 +857,79 @@ func (c *checker) structural(rng *rand.Rand, origBlk *clearsign.Block) {
 		}
 	}
 	os.WriteFile(provPath, w.prov, 0o644)
+
+	// ---- several clear-signed blocks in one provenance file, with a TAMPERED archive on disk.
+	// Whatever the blocks say and whoever signed them: the trusted signer never signed these
+	// bytes, so the hard clause "archive bytes changed => must fail" applies to every case.
+	{
+		tampered := append([]byte(nil), w.archive...)
+		tampered[rng.Intn(len(tampered))] ^= 0x20
+		tsum := digest(tampered)
+		cat := func(parts ...[]byte) []byte {
+			var o []byte
+			for _, p := range parts {
+				o = append(o, p...)
+			}
+			return o
+		}
+		tmsg := msg(w.base, tsum)
+		atkB := resign(tmsg, ks.B, crypto.SHA512) // untrusted key vouches for the tampered bytes
+		atkD := resign(tmsg, ks.D, crypto.SHA512) // untrusted key with the signer's user id
+		atkC := resign(tmsg, ks.C, crypto.SHA256)
+		gap := []byte("\n\n-- counter-signature follows --\n\n")
+		type mb struct {
+			kind string
+			prov []byte
+		}
+		mbs := []mb{
+			{"untrusted-block-for-tampered-bytes-first-genuine-second", cat(atkB, w.prov)},
+			{"genuine-first-untrusted-block-for-tampered-bytes-second", cat(w.prov, atkB)},
+			{"untrusted-block-first-text-gap-genuine-second", cat(atkB, gap, w.prov)},
+			{"untrusted-block-first-blank-lines-genuine-second", cat(atkB, []byte("\n\n\n"), w.prov)},
+			{"same-userid-untrusted-block-first-genuine-second", cat(atkD, w.prov)},
+			{"two-untrusted-blocks-then-genuine", cat(atkB, atkC, w.prov)},
+			{"untrusted-genuine-untrusted", cat(atkC, w.prov, atkB)},
+			{"untrusted-block-alone", atkB},
+			{"genuine-then-genuine-of-another-chart", cat(w.prov, foreign)},
+			{"genuine-of-another-chart-then-genuine", cat(foreign, w.prov)},
+			{"genuine-twice", cat(w.prov, []byte("\n"), w.prov)},
+			{"text-prefix-untrusted-block-genuine", cat([]byte("mirror note\n\n"), atkB, w.prov)},
+		}
+		os.WriteFile(archivePath, tampered, 0o644)
+		for _, m := range mbs {
+			os.WriteFile(provPath, m.prov, 0o644)
+			det := func() string {
+				return fmt.Sprintf("multi-block provenance %q with a TAMPERED archive %s (one bit flipped: sha256 %s, signed by the trusted key: %s); keyring = signer only | provenance: %s", m.kind, w.base, tsum, w.sum, trunc(fmt.Sprintf("%q", m.prov), 1200))
+			}
+			res.Stat("mutants_multiblock-tampered-archive_reject", 1)
+			c.verifyPair("multi-block+tampered-archive", m.kind, archivePath, w.sigA, w.ringA, false, true, true, tsum, det)
+			c.download("multi-block+tampered-archive", m.kind, w.base, tampered, m.prov, w.ringA, false, true, tsum, det)
+		}
+		os.WriteFile(archivePath, w.archive, 0o644)
+		// multi-block files with the untouched archive: library-classified (first block decides).
+		// [untrusted block over the same message] + [genuine] is deliberately NOT generated: the file
+		// does carry a trusted signature over a message listing the true digest (don't-care).
+		okB := resign(origBlk.Plaintext, ks.B, crypto.SHA512)
+		for _, m := range []mb{
+			{"genuine-first-untrusted-block-same-message-second", cat(w.prov, okB)},
+			{"genuine-text-gap-genuine-of-another-chart", cat(w.prov, gap, foreign)},
+			{"genuine-blank-lines-untrusted-block", cat(w.prov, []byte("\n\n\n"), atkB)},
+		} {
+			os.WriteFile(provPath, m.prov, 0o644)
+			expect, _ := expectedByLibrary(m.prov, w.sigA.KeyRing, w.base, w.sum)
+			det := func() string {
+				return fmt.Sprintf("multi-block provenance %q with the untouched archive %s; keyring = signer only | provenance: %s", m.kind, w.base, trunc(fmt.Sprintf("%q", m.prov), 1200))
+			}
+			out := "reject"
+			if expect {
+				out = "accept"
+			}
+			res.Stat("mutants_multiblock_"+out, 1)
+			c.verifyPair("multi-block", m.kind, archivePath, w.sigA, w.ringA, expect, false, true, w.sum, det)
+			c.download("multi-block", m.kind, w.base, w.archive, m.prov, w.ringA, expect, false, w.sum, det)
+		}
+		os.WriteFile(provPath, w.prov, 0o644)
+	}
 
 	// ---- missing provenance file
 	os.Remove(provPath)
